@@ -1423,28 +1423,38 @@ fn decorate(rng: &mut Rng, src: &str) -> String {
 
 /// `{{ <a> OP <b> }}` where both operands are single instructions after fusion: the error span
 /// must be expand_span(combine_spans((i,i),(j,j))) over the real span table
-fn hull_cases(hull: &mut Sink, meta: &mut Meta, ctx: &Context) {
+fn hull_cases(hull: &mut Sink, meta: &mut Meta, ctx: &Context, thorough: bool) {
     let operands = ["s", "n", "arr", "m.a", "obj.f.g", "m.k", "\"é日\"", "3", "strs", "obj.f", "nope", "none"];
     let ops = ["<", ">=", "+", "*", "-", "/", "%", "**", "//", "<=", ">"];
-    let prefixes = ["", "é日 ", "l1\nl2 😀 ", "\r\n\t", "a\rb ", "\r\r\n\u{2028}"];
+    let prefixes: Vec<&str> = if thorough { vec!["", "é日 ", "l1\nl2 😀 ", "\r\n\t", "a\rb ", "\r\r\n\u{2028}"] } else { vec!["", "l1\nl2 😀 ", "a\rb "] };
+    let brks: Vec<&str> = if thorough { vec![" ", "\n  ", "\r"] } else { vec![" ", "\r"] };
     for pre in prefixes {
         for a in operands {
             for b in operands {
                 for op in ops {
-                    for brk in [" ", "\n  ", "\r"] {
+                    for brk in brks.iter().copied() {
                         let src = format!("{pre}{{{{ {a}{brk}{op} {b} }}}}");
                         let tera = Tera::default();
-                        let r = guarded(|| tera.render_str(&src, ctx, false));
-                        let Outcome::Err(c, _) = &r else { continue };
-                        if c != "render" {
-                            continue;
-                        }
-                        // need the span itself
-                        let e = match tera.render_str(&src, ctx, false) {
-                            Err(e) => e,
-                            Ok(_) => continue,
+                        // (tvh::guarded formats the error outside its catch_unwind: not used here)
+                        let r = std::panic::catch_unwind(std::panic::AssertUnwindSafe(|| tera.render_str(&src, ctx, false)));
+                        let e = match r {
+                            Err(_) => {
+                                meta.oracle_checks += 1;
+                                meta.oracle_fail("panic during render_str", None, json!({"source": src}));
+                                continue;
+                            }
+                            Ok(Ok(_)) => continue,
+                            Ok(Err(e)) => e,
                         };
                         let info = inspect(&e);
+                        if info.class != "render" {
+                            continue;
+                        }
+                        if let Err(m) = &info.display {
+                            meta.oracle_checks += 1;
+                            meta.oracle_fail(&format!("(e) Display panicked: {m}"), None,
+                                json!({"source": src, "message": info.message, "span": info.span.as_ref().map(json_span)}));
+                        }
                         let Some(sp) = info.span else { continue };
                         let Ok(ls) = chunk_listings("__tera_one_off", &src, Delimiters::default()) else { continue };
                         let Some(main) = ls.iter().find(|c| c.id == "main") else { continue };
@@ -1493,7 +1503,9 @@ fn hull_cases(hull: &mut Sink, meta: &mut Meta, ctx: &Context) {
 
 fn main() {
     let args = parse_args();
-    silence_panics();
+    if std::env::var("C12_SHOW_PANICS").is_err() {
+        silence_panics();
+    }
     let thorough = args.tier == "thorough";
     let mut rng = Rng::new(args.seed);
     let mut meta = Meta::default();
@@ -1570,6 +1582,9 @@ fn main() {
     // A1b: every fault in a template whose line breaks are lone CRs / other flavours
     for (k, fault) in all_faults.iter().enumerate() {
         for (j, pl) in ["top", "include", "component"].iter().enumerate() {
+            if !thorough && j == 2 {
+                continue;
+            }
             let pre = PREFIXES[13 + (k + j) % 14];
             let suf = SUFFIXES[5 + (k + j) % 6];
             let p = plant_b(fault, pl, pre, suf, WRAPS[0], PREFIXES[13 + (k + j + 5) % 14]);
@@ -1578,7 +1593,8 @@ fn main() {
     }
     // A2: every layout x wrap on a few faults and placements (to Coq)
     let few = ["undef-var", "cmp-incomparable", "field-of-undefined", "unexpected-token", "non-ascii-in-tag", "unknown-filter", "filter-invalid-arg", "ml-undef", "cr-before-token"];
-    for fault in all_faults.iter().filter(|x| few.contains(&x.label)) {
+    let few_quick = ["undef-var", "cmp-incomparable", "unexpected-token", "unknown-filter", "cr-before-token"];
+    for fault in all_faults.iter().filter(|x| if thorough { few.contains(&x.label) } else { few_quick.contains(&x.label) }) {
         for pl in if thorough { vec!["top", "include", "component", "ancestor-block"] } else { vec!["top", "include", "component"] } {
             for pre in PREFIXES {
                 for suf in if thorough { vec![SUFFIXES[0], SUFFIXES[3]] } else { vec![SUFFIXES[3]] } {
@@ -1693,7 +1709,7 @@ fn main() {
     drop(run);
 
     // ---- D. binary operators: expand_span / combine_spans against the real span table
-    hull_cases(&mut hull, &mut meta, &ctx);
+    hull_cases(&mut hull, &mut meta, &ctx, thorough);
 
     let oracle_only = meta.oracle_checks;
     meta.extra.insert("errors_by_stage_and_class".into(), json!(seen));
